@@ -12,7 +12,9 @@ ASSUMPTIONS = [
     "invariant is re-checked afterwards, so histories of any length are covered for this hierarchy",
     "wiring styles enumerated: Config discriminator, Annotated field (holder created before any subclass), codec (decoder created "
     "at a chosen point of the history), include_supertypes, variant_tagger_fn, non-mixin dataclasses through the codec",
-    "no-field mode: only 'subclasses before supertypes, an accepting class wins' is checked (order among subclasses is not stated)",
+    "no-field mode: fixed hierarchy NBase <- NA <- NC, NBase <- NB; which required keys are present and whether NA's constructor "
+    "rejects the input (with an exception type of its own) are solver variables; checked: some accepting subclass is returned, the "
+    "supertype only when no subclass accepts, SuitableVariantNotFoundError otherwise (order among subclasses is not stated)",
 ]
 FAMILIES = [
     ("config", "style='config'"), ("annotated", "style='annotated'"), ("codec", "style='codec'"),
@@ -36,6 +38,9 @@ def harnesses(tier, seed):
         hs.append(gen.custom_harness("C12", "c12", Schema("hist_" + name, "int", ""), "hist", "k=%d" % k, kws))
     for name, kw in (("config", "style='config'"), ("config_tagger", "style='config', tagger=True")):
         hs.append(gen.custom_harness("C12", "c12", Schema("step_" + name, "int", ""), "step", "", kw))
+    for name, kw in (("config", "style='config'"), ("annotated", "style='annotated'"), ("codec", "style='codec'"),
+                     ("annotated_super", "style='annotated', supertypes=True"), ("codec_super", "style='codec', supertypes=True")):
+        hs.append(gen.custom_harness("C12", "c12", Schema("nofield_" + name, "int", ""), "nofield", "", kw))
     return hs
 
 
